@@ -20,6 +20,7 @@ three entry lists list the same index tuples in the same order and that every ro
 `gfac ε k · majorant` of the exact one.
 -/
 namespace PsV
+set_option linter.unusedSectionVars false
 variable {F : Type} [Field F] [LinearOrder F] [IsStrictOrderedRing F]
 variable {ε : F} {fl st : F → F}
 
